@@ -43,7 +43,10 @@ CONTAINERS = {
     "nested": ["struct", [["delim", ["struct", ["u8", "X", "u8"]], "e2"], "u8"]],
     "nested-array": ["struct", [["farr", ["delim", ["struct", ["X", "u8"]], "e2"], 2], "u8"]],
     "unaligned": ["struct", ["u3", "X", "u5", "u8"]],
+    # the nested object is the LAST thing on the wire; the READER's container has grown two more fields meanwhile
+    "tail-grow": ["struct", ["u8", "X"]],
 }
+READER_CONTAINERS = {"tail-grow": ["struct", ["u8", "X", "u8", "u16"]]}
 
 
 def _subst(c: typing.Any, d: typing.Any) -> typing.Any:
@@ -62,6 +65,13 @@ def _build_pair(container: str, old: int, new: int, e: typing.Any, e2: typing.An
         d = ["delim", ["struct", FAMILIES[family][rev]], "e"]
         out.append(T.build(_subst(CONTAINERS[container], d), {"e": e, "e2": e2}))
     return out[0], out[1]
+
+
+def _build_reader(container: str, rev: int, e: typing.Any, e2: typing.Any, family: str) -> typing.Any:
+    """The reader's own (grown) container around revision `rev`, where it differs from the writer's."""
+    T._counter[0] = 1000  # pylint: disable=protected-access
+    d = ["delim", ["struct", FAMILIES[family][rev]], "e"]
+    return T.build(_subst(READER_CONTAINERS[container], d), {"e": e, "e2": e2})
 
 
 # ------------------------------------------------------------------------------------------------------------------
@@ -89,6 +99,8 @@ def make_layout(container: str, old: int, new: int, r: int):
         fb = list(b.iterate_fields_with_offsets())
         if len(fa) != len(fb):
             return "field count"
+        if container in READER_CONTAINERS:
+            fa, fb = fa, fb  # layout clause concerns one container with two revisions of the nested type only
         for (f1, o1), (f2, o2) in zip(fa, fb):
             if f1.name != f2.name:
                 return "field order"
@@ -169,6 +181,8 @@ def _wrap(container: str, xs: typing.List[typing.Any], t: typing.Sequence[typing
         return {"f0": [{"f0": xs[0], "f1": t[0]}, {"f0": xs[1], "f1": t[2]}], "f1": t[0]}
     if container == "unaligned":
         return {"f0": 5, "f1": xs[0], "f2": 9, "f3": t[0]}
+    if container == "tail-grow":
+        return {"f0": t[0], "f1": xs[0]}
     raise ValueError(container)
 
 
@@ -206,6 +220,10 @@ def make_wire(container: str, writer: int, reader: int, n_objects: int, n3: int,
             xs_w, xs_r = xs_w[:n_objects], xs_r[:n_objects]
         vw = _wrap(container, xs_w, (t0, t1, t2), variant_x)
         want = _wrap(container, xs_r, (t0, t1, t2), variant_x)
+        if container in READER_CONTAINERS:
+            tr = _build_reader(container, reader, e, e2, family)
+            want = dict(want)
+            want.update({"f2": 0, "f3": 0})  # fields the writer's container did not have: zero extension
         data = pydsdl.serialize(tw, vw)
         got = pydsdl.deserialize(tr, data)
         if got != want:
